@@ -87,13 +87,49 @@ def transcript_oracles(prop, ops, outs, rp, res):
                         res.violations.append(dict(case=case, what=f"endmarker delivered on {key} but the callback is still registered"))
                     if not mode[0] and "E" in log:
                         res.violations.append(dict(case=case, what=f"endmarker delivered on {key} although none was requested"))
+    if prop in ("C04", "C10"):
+        # after the receiver of a side finished (connection loss), no callback may stay registered there and every
+        # requested endmarker must have been delivered
+        for op, out in zip(ops, outs):
+            t = op.split()
+            if t[0] == "cut" and out == "ok":
+                side = t[1]
+                if rp.cbs_final[side]:
+                    res.violations.append(dict(case=case, what=f"callbacks still registered on side {side} after its connection was lost: {sorted(rp.cbs_final[side])}"))
+                for key, calls in api.items():
+                    if key[0] != side or key in aliased:
+                        continue
+                    for name, args, o in calls:
+                        if name == "setcb" and o == "ok" and args[0] == "1" and "E" not in rp.cblog_final[side].get(key[1], []):
+                            res.violations.append(dict(case=case, what=f"callback of {key} requested an endmarker but never got it although the connection was lost"))
     if prop == "C03":
+        # close() on the channel of a still running remote_exec is refused by design ("cannot explicitly close channel within
+        # remote_exec", C06) whatever the channel's state: those calls are not "second closes"
+        executing, nclose, refused = set(), {}, set()
+        for op, out in zip(ops, outs):
+            t = op.split()
+            if t[0] == "rexec" and out.startswith("chan "):
+                executing.add(int(out.split()[1]))
+            elif t[0] == "finish" and out != "noten":
+                executing.discard(int(t[1]))
+            elif t[0] == "close":
+                k2 = (t[1], int(t[2]))
+                nclose[k2] = nclose.get(k2, 0) + 1
+                if t[1] == "B" and int(t[2]) in executing:
+                    refused.add((k2, nclose[k2]))
         for key, calls in api.items():
             if key in aliased:
                 continue
             ended = False
             closed = False
+            ncl = 0
             for name, args, out in calls:
+                if name == "close":
+                    ncl += 1
+                    if (key, ncl) in refused:
+                        if out != "OSError":
+                            res.violations.append(dict(case=case, what=f"close() inside the running remote_exec of {key} gave {out} (expected OSError)"))
+                        continue
                 if name == "recv":
                     if ended and out.startswith("item"):
                         res.violations.append(dict(case=case, what=f"an item was received on {key} after EOF had been observed"))
@@ -124,6 +160,17 @@ def transcript_oracles(prop, ops, outs, rp, res):
             want = 1 if (kind == "rexec" or side == "A") else 0
             if cid % 2 != want:
                 res.violations.append(dict(case=case, what=f"id {cid} allocated by side {side if kind != 'rexec' else 'A'} has the wrong parity"))
+    if prop == "C18" and getattr(rp, "digest", None):
+        # "once a channel is closed or dropped both sides forget it": an id whose last reference was dropped is not in that
+        # side's channel table at the end (the generator never re-opens a dropped id on the same side)
+        import re as _re
+        regs = {m.group(1): set(int(x) for x in m.group(2).split(",") if x != "-")
+                for m in _re.finditer(r"\b([AB]) count=\d+ fin=\d reg=(\S+)", rp.digest)}
+        travelled = set(int(c) for op in ops if op.startswith("send ") and len(op.split()) == 5 for c in op.split()[4].split(","))
+        for op, out in zip(ops, outs):
+            t = op.split()
+            if t[0] == "drop" and out == "ok" and int(t[2]) not in travelled and int(t[2]) in regs.get(t[1], ()):
+                res.violations.append(dict(case=case, what=f"channel {t[2]} still in side {t[1]}'s channel table although its last reference was dropped"))
     if prop == "C07":
         # a RemoteError for one channel never shows up on another: every RemoteError id must stem from an op on that id
         for key, calls in api.items():
@@ -273,13 +320,24 @@ def scenario_streams(ctx, res, rng, idx, with_callbacks=False, preempt=0):
             cid = ch.id
             out = got.setdefault(cid, [])
 
-            def sender(ch=ch, items=sentA[cid], cid=cid):
-                for x in items:
-                    ch.send(x)
-                ch.send(("fin", cid, b""))
+            if sentA[cid]:
+                def sender(ch=ch, items=sentA[cid], cid=cid):
+                    for x in items:
+                        ch.send(x)
+                    ch.send(("fin", cid, b""))
+                threads.append(sc.spawn(sender, name="send%d" % k))
+                del sender
 
             if p["mode"] == "cb":
-                def setcb(ch=ch, out=out, p=p):
+                holder = [ch]
+                drop = with_callbacks and p["nA"] == 0 and (k + idx) % 3 == 0
+                p["drop"] = drop
+                if drop:
+                    chans[k] = None
+                del ch
+
+                def setcb(holder=holder, out=out, p=p, drop=drop):
+                    ch = holder[0]
                     for _ in range(p["setcb_after"]):
                         try:
                             out.append(("item", ch.receive(timeout=2.0)))
@@ -297,12 +355,18 @@ def scenario_streams(ctx, res, rng, idx, with_callbacks=False, preempt=0):
                         ch.setcallback(cb, endmarker=END)
                     else:
                         ch.setcallback(cb)
+                    if drop:
+                        # the last reference goes away while items may still be in flight: the callback lives on
+                        holder[0] = None
+                        del ch
+                        return
                     try:
                         ch.receive(timeout=0.1)
                         out.append(("receive-accepted",))
                     except OSError:
                         pass
                 threads.append(sc.spawn(setcb, name="setcb%d" % k))
+                ch = holder[0]
             elif p["mode"] == "two":
                 o2 = []
                 out.append(("second", o2))
@@ -310,14 +374,17 @@ def scenario_streams(ctx, res, rng, idx, with_callbacks=False, preempt=0):
                 threads.append(sc.spawn(netthreads.drain, ch, o2, None, name="recvB%d" % k))
             else:
                 threads.append(sc.spawn(netthreads.drain, ch, out, None, name="recv%d" % k))
-            if sentA[cid]:
-                threads.append(sc.spawn(sender, name="send%d" % k))
+            ch = None
         sc.join(threads)
+        ch = None
         for ch, p in zip(chans, plan):
+            if ch is None:
+                continue
             try:
                 ch.waitclose(timeout=30.0)
             except Exception as e:  # noqa: BLE001
                 problems.append("waitclose raised %r on channel %d" % (e, ch.id))
+        sc.sc.block_until(lambda: not gw._channelfactory._callbacks, 30.0, "callbacks-drain")
         sc.leftover_callbacks = dict(gw._channelfactory._callbacks)
 
     sc.run(main)
@@ -386,11 +453,12 @@ def scenario_close(ctx, res, rng, idx):
     problems = []
     items = [("x", i, b"") for i in range(n)]
     sib = []
+    wgot = []
 
     def main(sc, gw, ctl):
         script = [("send", x) for x in items]
         if ending == "raise":
-            script.append(("raise", 7))
+            script.append(("raise", rng.randrange(10)))
         elif ending in ("local-close", "drop"):
             script.append(("drain",))
         ctl.scripts[1] = script
@@ -413,7 +481,8 @@ def scenario_close(ctx, res, rng, idx):
                         raise
                     waits.append("exc " + type(e).__name__)
                 try:
-                    ch.receive(timeout=0.2)
+                    # an item still queued is legitimately receivable after waitclose returned; it counts as received
+                    wgot.append(ch.receive(timeout=0.2))
                     waits.append("item-after-waitclose")
                 except Exception:
                     pass
@@ -472,6 +541,7 @@ def scenario_close(ctx, res, rng, idx):
                     problems.append("receiver got %r instead of EOFError/RemoteError" % (bad,))
                 if len(tail) < 4:
                     problems.append("end of channel not observed repeatedly")
+            allitems += wgot
             if sorted(allitems, key=lambda x: x[1]) != items:
                 problems.append(f"items before the close: got {len(allitems)} of {len(items)}")
             werr = sum(1 for w in waits if w == "RemoteError")
@@ -749,21 +819,34 @@ def scenario_cut(ctx, res, rng, idx):
 
     sc.run(main)
     res.count(("cut", idx, repr(params)))
-    if not sc.error:
-        # which frames lie completely before the cut (writes are whole frames, in write order)
-        complete = {}
-        pos = 0
+    if not sc.error and not after.get("early"):
+        # frame-exact expectation from the bytes the worker really wrote: a frame counts iff it lies completely
+        # before the cut (9-byte header: type, channel id, payload length)
         import struct
-        for (tname, nbytes) in sc.pair.b2a.write_log:
-            pos += nbytes
-        # re-derive per channel from what was actually delivered is not model-free; instead require prefix + EOF
+        data = bytes(sc.pair.b2a.record)
+        pos = 0
+        complete_items = {}
+        close_seen = {}
+        while pos + 9 <= len(data):
+            code, cid, ln = struct.unpack("!bii", data[pos:pos + 9])
+            end = pos + 9 + ln
+            if end > len(data):
+                break
+            if end <= cut:
+                if code == 4:
+                    complete_items[cid] = complete_items.get(cid, 0) + 1
+                elif code in (5, 6, 7):
+                    close_seen[cid] = True
+            pos = end
         for (k, j), o in outs.items():
+            cid = 2 * k + 1
             items = [e[1] for e in o if e[0] == "item"]
             exp = [("c%d" % k, i, b"") for i in range(nitems[k])]
-            if modes[k] == "recv" and items != exp[: len(items)]:
-                problems.append(f"conversation {k}: items after the cut are not a prefix of the items sent: {items}")
-            if modes[k] == "recv2" and not is_subsequence(items, exp):
-                problems.append(f"conversation {k}: out-of-order items after a cut")
+            want = exp[: complete_items.get(cid, 0)]
+            if modes[k] == "recv" and items != want:
+                problems.append(f"conversation {k}: obtained {len(items)} items, but exactly {len(want)} frames lay completely before the cut at byte {cut} (nothing partial, nothing lost): {items}")
+            if modes[k] == "recv2" and not is_subsequence(items, want):
+                problems.append(f"conversation {k}: a receiver saw items that were not completely before the cut / out of order")
             if any(e[0] == "late-item" for e in o):
                 problems.append(f"conversation {k}: item after EOF")
             bad = [e for e in o if e[0] == "exc"]
@@ -771,16 +854,30 @@ def scenario_cut(ctx, res, rng, idx):
                 problems.append(f"conversation {k}: receive raised {bad} (expected EOFError)")
             if len([e for e in o if e[0] == "eof"]) < 4:
                 problems.append(f"conversation {k}: EOF not observed (repeatedly) after the connection was lost")
+        for k in range(nconv):
+            if modes[k] == "recv2":
+                cid = 2 * k + 1
+                both = sorted([e[1] for j in (0, 1) for e in outs.get((k, j), []) if e[0] == "item"], key=lambda x: x[1])
+                want = [("c%d" % k, i, b"") for i in range(nitems[k])][: complete_items.get(cid, 0)]
+                if both != want:
+                    problems.append(f"conversation {k}: two receivers together got {len(both)} items, {len(want)} frames were complete before the cut")
         for k, log in cbs.items():
+            cid = 2 * k + 1
             items = [x for x in log if x != "END"]
-            exp = [("c%d" % k, i, b"") for i in range(nitems[k])]
-            if items != exp[: len(items)]:
-                problems.append(f"conversation {k}: callback items not a prefix of the sent items")
+            want = [("c%d" % k, i, b"") for i in range(nitems[k])][: complete_items.get(cid, 0)]
+            if items != want:
+                problems.append(f"conversation {k}: callback got {len(items)} items, exactly {len(want)} frames were complete before the cut")
             if log.count("END") != 1 or log[-1] != "END":
                 problems.append(f"conversation {k}: endmarker not delivered exactly once at the end after connection loss: {log[-3:]}")
         for k, w in waits.items():
-            if w not in ("ok", "EOFError"):
-                problems.append(f"conversation {k}: waitclose gave {w}")
+            cid = 2 * k + 1
+            # waitclose returns normally only if the conversation's own close frame arrived completely; otherwise the
+            # connection loss must be reported
+            # (a conversation that was closed cleanly before the cut may report either: `waitclose` falls back to the
+            # gateway's connection error once the loss was noticed — C04's "later waitclose raises EOFError")
+            want = ("ok", "EOFError") if close_seen.get(cid) else ("EOFError",)
+            if w not in want:
+                problems.append(f"conversation {k}: waitclose gave {w}, expected {'/'.join(want)} (close frame {'before' if close_seen.get(cid) else 'not before'} the cut at byte {cut})")
         if after.get("hasreceiver"):
             problems.append("gateway still reports a receiver after the connection was lost")
         for name in ("newchannel", "remote_exec", "send"):
